@@ -33,7 +33,8 @@ RULE = ('family = one database description (1-3 merged parts, 0-3 datasets of 0-
 PROBES = ['rejection_repeated_on_retry', 'duplicate_between_two_later_parts', 'two_database_objects_with_common_names', 'alias_only_in_later_part', 'extra_top_level_scalar_with_merge',
           'request_after_gc_rebuilt', 'identity_while_held', 'file_removed_after_load',
           'unpickled_database_answered', 'invalid_description_rejected',
-          'files_rewritten_between_two_database_objects']
+          'files_rewritten_between_two_database_objects',
+          'constructor_given_a_list_or_tuple_of_parts']
 BUDGET = {
     'quick': {'families': 10000, 'wall_cap': 420, 'shrink_s': 10},
     'thorough': {'families': 100000, 'wall_cap': 5400, 'shrink_s': 30},
@@ -150,7 +151,7 @@ def gen(rng, tier, index):
             else:
                 ops.append(['gc'])
         cases.append({'parts': parts, 'invalid': invalid, 'backend': backend, 'ops': ops,
-                      'two_dbs': rng.random() < 0.4,
+                      'two_dbs': rng.random() < 0.4, 'spelling': rng.randrange(0, 12),
                       'reused_path': backend == 'json' and rng.random() < 0.3})
     return cases
 
@@ -260,11 +261,19 @@ def run(case):
             db = None
             err = None
             try:
+                sp = case.get('spelling', 0)
                 if case['backend'] == 'dict':
-                    db = ldb.DictDatabase(*src) if len(src) > 1 or True else None
+                    # DictDatabase(d1, d2, ...), DictDatabase([d1, d2, ...]), DictDatabase((d1, ...))
+                    db = ldb.DictDatabase(*src) if sp % 3 == 0 else \
+                        ldb.DictDatabase(src if sp % 3 == 1 else tuple(src))
                 else:
-                    db = ldb.JsonDatabase(*paths)
+                    import pathlib as _pl
+                    pp = [_pl.Path(x) if (sp >> 2) & 1 else x for x in paths]
+                    db = ldb.JsonDatabase(*pp) if sp % 3 == 0 else \
+                        ldb.JsonDatabase(pp if sp % 3 == 1 else tuple(pp))
                     db.data
+                if sp % 3:
+                    probes['constructor_given_a_list_or_tuple_of_parts'] = 1
             except Exception as e:
                 err = e
             if not ok_merge and err is not None and db is not None:
@@ -328,7 +337,14 @@ def run(case):
                     kind, exp = model_expected(parts2 if second else parts, req)
                     target = db2 if second else active
                     try:
-                        ds = target.get_dataset(req)
+                        # a list of names in one of its legal spellings
+                        sp = case.get('spelling', 0)
+                        req_arg = req
+                        if isinstance(req, list) and sp % 3 == 1:
+                            req_arg = tuple(req)
+                        elif isinstance(req, list) and sp % 3 == 2:
+                            req_arg = (r_ for r_ in req)
+                        ds = target.get_dataset(req_arg)
                         got = list(ds.items()) if not isinstance(req, list) or True else None
                     except Exception as e:
                         if kind == 'error':
